@@ -176,6 +176,56 @@ Proof.
 Qed.
 Print Assumptions request_roundtrip.
 
+(* ---- what reaches the wire ---- *)
+
+(* the writer freezes status and headers at the first WriteHeader: a Content-Type set later,
+   a second WriteHeader or a Write change nothing of what the client reads *)
+Theorem writer_freezes_headers w st h st2 sniff :
+  let w1 := w_write_header st w in
+  wire sniff (w_write_header st2 (w_set_live h w1)) = wire sniff w1
+  /\ wire sniff (w_write (w_set_live h w1)) = wire sniff w1.
+Proof. exact (writer_frozen w st h st2 sniff). Qed.
+Print Assumptions writer_freezes_headers.
+
+(* encoder first, then the status, then the body (the order of the generated response
+   encoders and of goahttp.ErrorEncoder): the client reads that status together with exactly
+   the Content-Type ResponseEncoder computed *)
+Theorem content_type_set_before_status pmt errmt cenc accept ct w st v k b w' :
+  sent w = None ->
+  send pmt errmt cenc accept ct w st v = (Some k, b, w') ->
+  exists hdr, response_encoder pmt errmt accept ct (live w) = (Some k, hdr) /\ sent w' = Some (st, hdr).
+Proof. exact (send_wire pmt errmt cenc accept ct w st v k b w'). Qed.
+Print Assumptions content_type_set_before_status.
+
+(* error path, no header pre-set: for every Accept, designed type and error, the status the
+   client reads is the one of the error (415 for unsupported_media_type, ...) and the
+   Content-Type it reads selects the decoder of the format the error body was written in *)
+Theorem error_roundtrip_fresh pmt errmt cenc :
+  parser_stable pmt -> parser_fixes_supported pmt ->
+  forall accept ct g k b w',
+    error_encoder pmt errmt cenc accept ct (w_new []) g = (Some k, b, w') ->
+    exists hdr, sent w' = Some (http_status (error_response g), hdr) /\ response_decoder pmt hdr = k.
+Proof. exact (error_roundtrip pmt errmt cenc). Qed.
+Print Assumptions error_roundtrip_fresh.
+
+(* the order matters: with the status written first the negotiated Content-Type never
+   reaches the client, which reads what the writer sniffs from the body; an XML error body
+   announced as text/plain is not recovered *)
+Theorem status_before_content_type_refuted :
+  exists pmt errmt cenc cdec accept ct g sniff k b w',
+    parser_stable pmt /\ parser_fixes_supported pmt /\ codec_roundtrip cenc cdec /\
+    send_status_first pmt errmt cenc accept ct (w_new []) (http_status (error_response g)) (VStruct 0) = (Some k, Some b, w') /\
+    wire sniff w' = Some (415, sniff) /\ response_decoder pmt sniff <> k /\
+    decode cdec (response_decoder pmt sniff) SStruct b = None.
+Proof.
+  destruct status_first_witness as (k & b & w' & W1 & -> & W3 & W4 & W5).
+  destruct cut_parser_sane as (A & B & _).
+  exists cut_parser, (fun _ => []), toy_enc, toy_dec, app_xml, [], (EService (unsupported_error [])), w_sniffed, KXml, b, w'.
+  split; [exact A|]. split; [exact B|]. split; [exact toy_roundtrip|]. split; [exact W1|]. split; [exact W3|].
+  rewrite W4. split; [discriminate|exact W5].
+Qed.
+Print Assumptions status_before_content_type_refuted.
+
 (* ---- non-vacuity ---- *)
 
 (* the hypotheses on the parser are satisfiable (by a parser that cuts parameters), and so
